@@ -171,7 +171,14 @@ impl Transform {
         };
 
         // Check if the program is runnable, fail fast if it is not.
-        match Command::new(&program).spawn() {
+        // The probe must not inherit our standard streams: a program like `cat` would
+        // consume the list of input paths given with `--stdin` and write to the report.
+        match Command::new(&program)
+            .stdin(Stdio::null())
+            .stdout(Stdio::null())
+            .stderr(Stdio::null())
+            .spawn()
+        {
             Ok(mut child) => {
                 let _ignore = child.kill();
             }
